@@ -148,4 +148,12 @@ CHECKS = {
         "earlier runs and latest-lookups. The matrix is finite, so it is enumerated; histories are sampled.",
    note="Trusted base: sha256 / mtime snapshots, the audit hook's coverage of Python-level file operations, strace. mkdir of an existing directory is not a write.",
    technique="runtime monitoring: OS-level observation (audit hook, strace, snapshots) over an exhaustive save matrix; history + executable model for the project registry"),
+ "C17": dict(category="exploration",
+   text="Real save/load pairs over generated inputs: models of every builtin item type and harness scheme models (equal specification + bit-identical first "
+        "objective evaluation of the reloaded model, recorded by the C02 monitor), results of real optimisations x SavingOptions x absolute/relative targets with "
+        "the folder moved and the cwd changed before loading (parameters, histories, statistics, datasets, relative paths), netCDF datasets (bit equality incl. "
+        "dtypes and coordinates), ASCII time-/wavelength-explicit files for either dimension order incl. square shapes. Sampling over feature combinations is "
+        "the right level for an unbounded input space.",
+   note="Trusted base: numpy array_equal, the C20 model generator, the C02 objective recorder. Fields not persisted by design are not compared. F21 (model class wider than its megacomplexes) attributed only to TypeError from load_model.",
+   technique="runtime monitoring: round-trip oracles at the API boundary incl. behavioural identity (recorded objective) of reloaded models; recorders on the serialisation helpers"),
 }
